@@ -84,7 +84,7 @@ fn collision_grammar() -> BoxedStrategy<GrammarSpec> {
 pub fn case_strategy(tier: Tier, rollback_weight: u32, query_weight: u32, with_stop_lexemes: bool) -> BoxedStrategy<Case> {
     // C11 quantifies over every grammar; C12 over those that support rollback (no stop= / max_tokens=)
     let any = if with_stop_lexemes { crate::gen::any_grammar_ext() } else { crate::gen::any_grammar_core_ext() };
-    let g = prop_oneof![3 => any, 1 => collision_grammar()];
+    let g = prop_oneof![9 => any, 3 => collision_grammar(), 1 => crate::gen::token_ref_grammar()];
     g.prop_flat_map(move |g| {
         (
             Just(g.clone()),
@@ -155,7 +155,25 @@ pub fn run_history(prefix: &'static str, case: &Case, ctx: &mut Ctx) -> R {
         ctx.class("compile_error");
         return Ok(());
     }
-    let key = |k: &str| format!("{}/{}", prefix, k);
+    // grammars with token references (<[id]>, <[a-b]>, <|eos|>): two known findings, keyed by what the history did
+    let tokref = matches!(&case.g, GrammarSpec::Lark(t) if t.contains("<[") || t.contains("<|"));
+    if tokref {
+        ctx.class("grammar_with_token_references");
+    }
+    let mut rollback_attempted = false;
+    let mut had_ff_query = false;
+    macro_rules! key {
+        ($k:expr) => {{
+            let base = format!("{}/{}", prefix, $k);
+            if tokref && rollback_attempted {
+                format!("{}@rollback-over-token-reference", base)
+            } else if tokref && had_ff_query {
+                format!("{}@forced-bytes-query-at-token-reference", base)
+            } else {
+                base
+            }
+        }};
+    }
     // rollback and reset are documented as unsupported with stop= / max_tokens= lexemes: such
     // histories consist of commits and read-only queries only
     let can_rollback = crate::gen::supports_rollback(&case.g);
@@ -200,7 +218,7 @@ pub fn run_history(prefix: &'static str, case: &Case, ctx: &mut Ctx) -> R {
                     if is_limit_error(&e.to_string()) {
                         return Ok(());
                     }
-                    return ctx.fail(&key("model-allowed-token-fails-to-commit"), || tag!(&format!("commit of token {} (allowed by a fresh engine in the same net state) failed: {}", t, short_err(&e.to_string()))));
+                    return ctx.fail(&key!("model-allowed-token-fails-to-commit"), || tag!(&format!("commit of token {} (allowed by a fresh engine in the same net state) failed: {}", t, short_err(&e.to_string()))));
                 }
                 tokens.push(t);
                 done_ops.push(format!("commit({})", t));
@@ -216,7 +234,7 @@ pub fn run_history(prefix: &'static str, case: &Case, ctx: &mut Ctx) -> R {
                 }
                 let e = if *op == Op::CommitEosLast { *vocab.eos.last().unwrap() } else { vocab.eos[0] };
                 if let Err(er) = m.consume_token(e) {
-                    return ctx.fail(&key("eos-commit-failed-in-accepting-state"), || tag!(&short_err(&er.to_string())));
+                    return ctx.fail(&key!("eos-commit-failed-in-accepting-state"), || tag!(&short_err(&er.to_string())));
                 }
                 tokens.push(e);
                 done_ops.push(format!("commit(EOS {})", e));
@@ -230,8 +248,9 @@ pub fn run_history(prefix: &'static str, case: &Case, ctx: &mut Ctx) -> R {
                 let k = 1 + frac(*fr, tokens.len());
                 let was_stopped = m.is_stopped();
                 let dropped: Vec<u32> = tokens[tokens.len() - k..].to_vec();
+                rollback_attempted = true;
                 if let Err(e) = m.rollback(k) {
-                    return ctx.fail(&key("rollback-failed"), || tag!(&format!("rollback({}) failed: {}", k, short_err(&e.to_string()))));
+                    return ctx.fail(&key!("rollback-failed"), || tag!(&format!("rollback({}) failed: {}", k, short_err(&e.to_string()))));
                 }
                 tokens.truncate(tokens.len() - k);
                 had_rollback = true;
@@ -245,8 +264,9 @@ pub fn run_history(prefix: &'static str, case: &Case, ctx: &mut Ctx) -> R {
                 if !can_rollback {
                     continue;
                 }
+                rollback_attempted |= !tokens.is_empty();
                 if let Err(e) = m.reset() {
-                    return ctx.fail(&key("reset-failed"), || tag!(&short_err(&e.to_string())));
+                    return ctx.fail(&key!("reset-failed"), || tag!(&short_err(&e.to_string())));
                 }
                 if !tokens.is_empty() {
                     had_rollback = true;
@@ -271,7 +291,7 @@ pub fn run_history(prefix: &'static str, case: &Case, ctx: &mut Ctx) -> R {
                         let st2 = m.last_step_stats().ok().cloned();
                         ctx.eval(1);
                         if a != b {
-                            return ctx.fail(&key("mask-differs-when-computed-twice"), || tag!("second compute_mask differs from the first"));
+                            return ctx.fail(&key!("mask-differs-when-computed-twice"), || tag!("second compute_mask differs from the first"));
                         }
                         if let (Some(_), Some(s2)) = (st, st2) {
                             if s2.trie_nodes_walked == 0 && s2.slices_applied == 0 && a.is_some() {
@@ -292,7 +312,7 @@ pub fn run_history(prefix: &'static str, case: &Case, ctx: &mut Ctx) -> R {
                                 (Some(a), Some(b)) => diff_masks(a, b, &vocab),
                                 _ => "one of them failed".into(),
                             };
-                            return ctx.fail(&key("mask-differs-after-cache-invalidation"), || tag!(&d));
+                            return ctx.fail(&key!("mask-differs-after-cache-invalidation"), || tag!(&d));
                         }
                     }
                     Q::Validate(a, b) => {
@@ -306,9 +326,11 @@ pub fn run_history(prefix: &'static str, case: &Case, ctx: &mut Ctx) -> R {
                         let _ = m.is_accepting();
                     }
                     Q::FfBytes => {
+                        had_ff_query = true;
                         let _ = m.compute_ff_bytes();
                     }
                     Q::FfTokens => {
+                        had_ff_query = true;
                         let _ = m.compute_ff_tokens();
                     }
                 }
@@ -331,7 +353,7 @@ pub fn run_history(prefix: &'static str, case: &Case, ctx: &mut Ctx) -> R {
                         Some(k) if !can_rollback => k,
                         _ => "query-failed",
                     };
-                    return ctx.fail(&key(k), || tag!(&format!("query {:?} put the engine into error state: {}", q, short_err(&e))));
+                    return ctx.fail(&key!(k), || tag!(&format!("query {:?} put the engine into error state: {}", q, short_err(&e))));
                 }
                 continue;
             }
@@ -346,10 +368,14 @@ pub fn run_history(prefix: &'static str, case: &Case, ctx: &mut Ctx) -> R {
                 if is_limit_error(&e) {
                     return Ok(());
                 }
-                return ctx.fail(&key("model-cannot-replay-net-history"), || tag!(&format!("a fresh engine rejects the net history: {}", e)));
+                return ctx.fail(&key!("model-cannot-replay-net-history"), || tag!(&format!("a fresh engine rejects the net history: {}", e)));
             }
         };
         let with_ff = i % 2 == 0;
+        if with_ff {
+            // the observation itself asks for forced bytes
+            had_ff_query = true;
+        }
         let live = observe(&mut m, n, with_ff);
         let model = observe(&mut fr, n, with_ff);
         ctx.eval(1);
@@ -370,7 +396,7 @@ pub fn run_history(prefix: &'static str, case: &Case, ctx: &mut Ctx) -> R {
                 }
             };
             let k = if had_rollback { "state-differs-from-fresh-replay-after-rollback" } else { "state-differs-from-fresh-replay" };
-            return ctx.fail(&key(k), || tag!(&what));
+            return ctx.fail(&key!(k), || tag!(&what));
         }
         if live.mask.is_none() && !live.stopped {
             // both failed the same way (e.g. dead end): nothing more to do here
@@ -393,7 +419,7 @@ pub fn run_history(prefix: &'static str, case: &Case, ctx: &mut Ctx) -> R {
                 let b = fr.clone().validate_tokens(&seq).ok();
                 ctx.eval(1);
                 if a != b {
-                    return ctx.fail(&key("validate-differs-from-fresh-replay"), || tag!(&format!("validate_tokens({:?}) live={:?} model={:?}", seq, a, b)));
+                    return ctx.fail(&key!("validate-differs-from-fresh-replay"), || tag!(&format!("validate_tokens({:?}) live={:?} model={:?}", seq, a, b)));
                 }
             }
         }
